@@ -137,20 +137,28 @@ class FrameStep(Scenario):
             ws.h5file.seek(0)
             with _h.File(ws.h5file, "r") as f:
                 hdr_before = {a: _norm(f["GEOSCIENCE"].attrs[a]) for a in header_attrs if a in f["GEOSCIENCE"].attrs}
-            step = STEPS[int(cx.int("step", 0, len(STEPS)))]
-            if kind == "points" and step in ("set_cells", "remove_cells"):
+            nsteps = self.params.get("steps", 1)
+            steps = [STEPS[int(cx.int(f"step{q}" if q else "step", 0, len(STEPS)))] for q in range(nsteps)]
+            if kind == "points" and any(x in ("set_cells", "remove_cells") for x in steps):
                 return "not applicable to points"
             ws = Workspace(ws.h5file)
             o = get("o")
+            label = " -> ".join(steps)
             try:
+              for q, step in enumerate(steps):
+                o = get("o")
+                if o is None:
+                    break
+                sfx = f"_{q}" if q else ""
+                nvx = shape(o.vertices)[0]
                 if step == "open_close":
                     pass
                 elif step == "set_vertices":
-                    o.vertices = mk_array(X, [cx.real(f"n{i}") for i in range(9)], (3, 3), "float64")
+                    o.vertices = mk_array(X, [cx.real(f"n{i}" + sfx) for i in range(nvx * 3)], (nvx, 3), "float64")
                 elif step == "set_values":
-                    nv = [cx.real(f"m{i}") for i in range(3)]
+                    nv = [cx.real(f"m{i}" + sfx) for i in range(nvx)]
                     assume_not_ndv(cx, nv)
-                    get("d1").values = mk_array(X, nv, (3,), "float64")
+                    get("d1").values = mk_array(X, nv, (nvx,), "float64")
                 elif step == "rename":
                     o.name = "O renamed"
                     get("d1").name = "D1 renamed"
@@ -159,13 +167,13 @@ class FrameStep(Scenario):
                 elif step == "copy":
                     o.copy(parent=get("h"))
                 elif step == "remove_vertices":
-                    o.remove_vertices([cx.int("ri", 0, 3)])
+                    o.remove_vertices([cx.int("ri" + sfx, 0, shape(o.vertices)[0])])
                 elif step == "remove_data":
                     ws.remove_entity(get("d2"))
                 elif step == "add_data":
-                    nv = [cx.real(f"a{i}") for i in range(3)]
+                    nv = [cx.real(f"a{i}" + sfx) for i in range(nvx)]
                     assume_not_ndv(cx, nv)
-                    o.add_data({"D3": {"values": mk_array(X, nv, (3,), "float64")}})
+                    o.add_data({"D3" + sfx: {"values": mk_array(X, nv, (nvx,), "float64")}})
                 elif step == "group_membership":
                     pg = [q for q in o.property_groups if q.name == "PG"][0]
                     pg.add_properties(get("d2"))
@@ -175,32 +183,33 @@ class FrameStep(Scenario):
                     o.visible = False
                     o.public = False
                 elif step == "set_cells":
-                    o.cells = mk_array(X, [cx.int(f"c{i}", 0, 3) for i in range(4)], (2, 2), "int32")
+                    o.cells = mk_array(X, [cx.int(f"c{i}" + sfx, 0, 3) for i in range(4)], (2, 2), "int32")
                 elif step == "remove_cells":
-                    o.remove_cells([cx.int("rc", 0, 2)])
+                    o.remove_cells([cx.int("rc" + sfx, 0, max(shape(o.cells)[0], 1))])
                 elif step == "modify_vertices":
                     arr = o.vertices
-                    arr[0, 2] = cx.real("z")
+                    arr[0, 2] = cx.real("z" + sfx)
                     o.vertices = arr
                 elif step == "empty_group":
                     o.find_or_create_property_group(name="empty")
                 elif step == "retype_data":             # D1 shares its type with the unrelated S2
                     get("d1").entity_type = get("d2").entity_type if False else get("s1").entity_type
                 elif step == "add_boolean_of_existing_type":
-                    o.add_data({"B2": {"values": mk_array(X, [True, False, True], (3,), "bool"), "type": "boolean",
+                    o.add_data({"B2" + sfx: {"values": mk_array(X, [True, False, True][:nvx], (nvx,), "bool"), "type": "boolean",
                                        "entity_type": get("b1").entity_type}})
                 elif step == "add_data_of_existing_type":
-                    nv = [cx.real(f"a{i}") for i in range(3)]
+                    nv = [cx.real(f"b{i}" + sfx) for i in range(nvx)]
                     assume_not_ndv(cx, nv)
-                    o.add_data({"D4": {"values": mk_array(X, nv, (3,), "float64"), "entity_type": get("s1").entity_type}})
+                    o.add_data({"D4" + sfx: {"values": mk_array(X, nv, (nvx,), "float64"), "entity_type": get("s1").entity_type}})
                 elif step == "modify_values":
                     arr = get("d1").values
-                    y = cx.real("y")
+                    y = cx.real("y" + sfx)
                     assume_not_ndv(cx, [y])
                     arr[0] = y
                     get("d1").values = arr
             except Exception as e:  # noqa: BLE001
                 return f"{step} raised {type(e).__name__}"
+            step = label
             del o
             ws.close()
             after = digest(ws.h5file, h5shim.store_of(ws.h5file), unrelated)
@@ -223,7 +232,10 @@ class FrameStep(Scenario):
 
 
 def scenarios(tier, seed):
-    return [FrameStep(kind="points"), FrameStep(kind="curve")]
+    S = [FrameStep(kind="points"), FrameStep(kind="curve")]
+    if tier == "thorough":
+        S += [FrameStep(kind="points", steps=2), FrameStep(kind="curve", steps=2)]
+    return S
 
 
 def main(tier, seed):
@@ -241,4 +253,5 @@ def main(tier, seed):
                "property-group membership, remove object, set flags, set cells, remove a cell, modify values / vertices in place, empty property "
                "group, give a data another (existing) type, add boolean / float data of an existing type} on a point set and a curve",
         expected_outcomes={"FrameStep": {"ok"}},
+        budget_s=2400,
     )
